@@ -273,6 +273,11 @@ func lrun(args []string) error {
 			for _, e := range parallel(evs) {
 				tr.Add(e)
 			}
+			// one Reader session per layout (a filtered read, then full reads in every order, then Info, on ONE Reader): what a
+			// Reader returns later must not depend on the layout either (how many chunks an earlier read could exclude)
+			for _, e := range sessionEvents(d, []string{"default", "idxfile", "idxlog", "idxlog", "info"}, r, 2*k) {
+				tr.Add(e)
+			}
 			for _, validate := range []bool{true, false} {
 				lr := run.LexAll(bytes.NewReader(fb), run.LexOpts{Validate: validate, AttCRC: true, Attachments: true})
 				tr.Add(wl.Ev{"ev": "Lex", "attcrc": true, "toks": lr.Toks, "end": lr.End, "why": errStr(lr.Err), "variant": k})
